@@ -65,8 +65,11 @@ pub(crate) fn in_range(i: usize, start: usize, len: usize) -> bool {
 /// either the clean-failure panic with nothing left mapped, or a fresh live mapping of `size`
 /// bytes within range. Used as a `#[kani::stub]` where a caller is checked against the contract
 /// instead of the body (the body's loop has up to 65 537 iterations).
+pub(crate) static mut ALLOC_ANCHOR: usize = 0;
 pub(crate) fn allocate_jit_memory_contract(_src: &FuncPtrInternal, code_size: usize) -> *mut u8 {
     unsafe {
+        // ghost: which address the caller asked the trampoline to be placed near
+        ALLOC_ANCHOR = _src.as_ptr() as usize;
         let p = libc::mmap(
             std::ptr::null_mut(),
             code_size,
